@@ -4,6 +4,7 @@ import (
 	"bufio"
 	"fmt"
 	"go/ast"
+	"go/types"
 	"go/parser"
 	"go/token"
 	"os"
@@ -231,6 +232,7 @@ type Env struct {
 	Alias  map[string]string // event-constructor aliases: Next -> destination.NextWithContext
 	Exit   *Exit
 	UserFn map[string]bool // names of user-supplied function parameters (name_0(args) is their i-th result)
+	FieldType func(string) types.Type
 }
 
 func (e *Env) sub() *Env {
@@ -326,6 +328,9 @@ func (e *Env) ident(name string) (SVal, error) {
 	if v, ok := e.Vars[name]; ok {
 		return v, nil
 	}
+	if v, ok := e.St.NamedV[name]; ok {
+		return v, nil
+	}
 	if t, ok := e.St.Ghost[name]; ok {
 		if e.Old {
 			if t0, ok := e.St.Named["ghost0:"+name]; ok {
@@ -412,6 +417,14 @@ func (e *Env) eval(ex ast.Expr) (SVal, error) {
 		base, err := e.eval(ex.X)
 		if err != nil {
 			return SVal{}, err
+		}
+		if base.K == KLoc {
+			if v, ok := e.heapVal(base.Loc + "." + ex.Sel.Name); ok {
+				return v, nil
+			}
+			if e.St.Zero[keyBase(base.Loc)] {
+				return SVal{}, fmt.Errorf("field %s of fresh object never written on this path", ex.Sel.Name)
+			}
 		}
 		if base.K == KStruct && base.Loc != "" {
 			// lazily assembled struct: field by key
@@ -502,7 +515,7 @@ func (e *Env) eval(ex ast.Expr) (SVal, error) {
 		}
 		if base.K == KSlice {
 			arr := base.Snap
-			if arr == "" || !e.Old {
+			if arr == "" {
 				arr = e.X.arrTerm(e.St, base)
 			}
 			if e.Old {
@@ -604,8 +617,19 @@ func (e *Env) callExpr(ex *ast.CallExpr) (SVal, error) {
 		return c.eval(ex.Args[0])
 	case "held":
 		return mkBool(boolLit(e.St.Held[argStr(0)])), nil
-	case "loaded", "atlock", "panicval":
+	case "loaded", "atlock", "atunlock", "panicval":
 		key := fname + "(" + argStr(0) + ")"
+		if v, ok := e.St.NamedV[key]; ok {
+			return v, nil
+		}
+		if (fname == "atlock" || fname == "atunlock") && e.FieldType != nil {
+			// the lock was not taken on this path: the value is unconstrained (conservative)
+			if t := e.FieldType(argStr(0)); t != nil {
+				v := e.X.symbolic(e.St, e.X.D.fresh("undef@"+key, "U")+"v", t)
+				e.St.NamedV[key] = v
+				return v, nil
+			}
+		}
 		if t, ok := e.St.Named[key]; ok {
 			switch e.St.Named["sort:"+key] {
 			case "Bool":
@@ -781,7 +805,7 @@ func (e *Env) callExpr(ex *ast.CallExpr) (SVal, error) {
 	return mkU(t), nil
 }
 
-var eventPrefixes = []string{"callfn", "call", "hook", "lock", "unlock", "trylock", "go", "chan", "loop"}
+var eventPrefixes = []string{"callfn", "call", "hook", "lock", "unlock", "trylock", "go", "chsend", "chrecv", "chclose", "loop"}
 
 // normEventName turns the contract spelling `call.F` into the internal event name `call:F`.
 func normEventName(n string) string {
